@@ -4,8 +4,9 @@
   `change_collateral` calls keeps it well formed and healthy.
   Side conditions of a step (all explicit in `UserStep`): the borrowed token's row is the one attached to its existing
   debt entry; a withdrawal does not leave a remainder below MIN_TOKEN_VALUE (see `C11_withdraw_hf_dust_term_needed`);
-  a supply switched *on* as collateral has a positive liquidation threshold (the code does not check
-  `usageAsCollateralEnabled` in `change_collateral`).
+  the risk table gives a token it admits as collateral (`usageAsCollateralEnabled`) a positive liquidation threshold — a
+  property of the CSV alone, re-checked by the harness on every file; `change_collateral(…, True)` itself refuses a token
+  that is not admitted (repair 500c37d), so a flag that is switched on has a positive threshold *by the code's own check*.
 -/
 import Proofs.C11
 namespace Demeter
@@ -50,7 +51,7 @@ inductive UserStep : Portfolio → Portfolio → Prop
       (∀ s, findSupply? p.supplies tok = some s → snapDust s.base (a / s.row.liqIndex) = 0) → UserStep p p'
   | changeCollateral (p : Portfolio) (tok : String) (flag : Bool) (p' : Portfolio) :
       AaveRisk.changeCollateral NumCtx.exact p tok flag = .ok p' →
-      (flag = true → ∀ s, findSupply? p.supplies tok = some s → 0 < s.row.lt) → UserStep p p'
+      (∀ s, findSupply? p.supplies tok = some s → s.row.canColl = true → 0 < s.row.lt) → UserStep p p'
 
 /-- any number of accepted user operations -/
 inductive UserSteps : Portfolio → Portfolio → Prop
@@ -183,7 +184,10 @@ theorem UserStep.preserves {p q : Portfolio} (h : UserStep p q) (hwf : p.WF) (hs
             have hk : s0.tok = tok := by simpa using hq0
             have : s0 = s := eq_of_mem_of_key_eq Supply.tok hwf.supKeys hs0 hsm (by rw [hk, hst])
             rw [this]
-            exact hlt hfl s hf
+            have hfl' : flag = true := hfl
+            cases hcs : s.coll with
+            | true => exact (hwf.sup s hsm).2.2 hcs
+            | false => exact hlt s hf (hpost.2 s hf hcs hfl')
         · simp only []
           unfold setSupplyColl
           have e := map_key_updFirst Supply.tok (fun s : Supply => { s with coll := flag }) (fun _ => rfl) tok p.supplies
@@ -201,7 +205,7 @@ theorem UserStep.preserves {p q : Portfolio} (h : UserStep p q) (hwf : p.WF) (hs
       cases hflag : flag with
       | false =>
         by_cases hcoll : s.coll = true
-        · have := hpost s hf hcoll hflag
+        · have := hpost.1 s hf hcoll hflag
           have hT : Gen.arHfLiqThreshold = 1 := rfl
           exact le_of_hf_not_lt_one hwf'.totalDebt_nonneg (by rw [hT]; exact this)
         · -- switching off a supply that is not collateral: same flag, handled above (p' = p); here the list is unchanged in value
